@@ -3,4 +3,5 @@ package sched
 
 import (
 	_ "github.com/bandprotocol/chain/v3/zzverif/sched/c19"
+	_ "github.com/bandprotocol/chain/v3/zzverif/sched/c20"
 )
